@@ -36,9 +36,14 @@ PartitionRequested(calls) ==
   LET p == LastArg(calls, "SetPartitionFlag", Len(calls)) IN
   p # <<>> /\ p[1].b /\ \E i \in 1..Len(calls) : calls[i].f = "SetExtensionFlag" /\ calls[i].b
                               /\ \E j \in (i + 1)..Len(calls) : calls[j].f = "SetPartitionFlag" /\ calls[j].b
+EverTrue(calls, f) == \E i \in 1..Len(calls) : calls[i].f = f /\ calls[i].b
 IntendedNotReflected(e) ==
   LET c == e.calls  g == e.g1 IN
-  IF FlagSet(c, "SetFragmentFlag") /\ ~g.frag THEN "fragment-flag"
+  \* a freshly created EBP has no flag set: a flag that reads true must have been requested at some point
+  IF (g.frag /\ ~EverTrue(c, "SetFragmentFlag")) \/ (g.seg /\ ~EverTrue(c, "SetSegmentFlag")) \/ (g.sapflag /\ ~EverTrue(c, "SetSapFlag"))
+     \/ (g.grouping /\ ~EverTrue(c, "SetGroupingFlag")) \/ (g.timeflag /\ ~EverTrue(c, "SetTimeFlag")) \/ (g.extflag /\ ~EverTrue(c, "SetExtensionFlag"))
+     \/ (g.disc /\ ~EverTrue(c, "SetDiscOrConcealment")) \/ (g.partition /\ ~EverTrue(c, "SetPartitionFlag")) THEN "flag-set-without-request"
+  ELSE IF FlagSet(c, "SetFragmentFlag") /\ ~g.frag THEN "fragment-flag"
   ELSE IF FlagSet(c, "SetSegmentFlag") /\ ~g.seg THEN "segment-flag"
   ELSE IF FlagSet(c, "SetSapFlag") /\ ~g.sapflag THEN "sap-flag"
   ELSE IF FlagSet(c, "SetGroupingFlag") /\ ~g.grouping THEN "grouping-flag"
